@@ -131,3 +131,8 @@ def run(ctx):
     for r, s in (steered[:1] + [x for x in steered if x[1]["name"].startswith("close-vs-read")][:1] +
                  [x for x in steered if x[1]["name"].startswith("close-while-dialing")][:1]):
         ctx.sample({"script": s["name"], "events": r["events"][:60]})
+
+    # ---- the same property on the real TraditionalDnsConn (deadline arming / connection death under PipelineTransport):
+    # spec/PipeConnArm.tla resp. LazyPipe.tla, harness/drv_pipeconn, drv_pipeline (checks/pipeconn_c07.py)
+    import pipeconn_c07
+    pipeconn_c07.run_extra(ctx)
